@@ -92,6 +92,16 @@ Esc53 == {"\"\\u{0}\\u{10FFFF}\""}
 LexStrings == EscOld \cup EscNL \cup LongStr \cup (IF HasEsc52 THEN Esc52 ELSE {}) \cup (IF Ge53 THEN Esc53 ELSE {})
 LexComments == {"--c\r\n", "--c\r", "--c\n\r", "--\n", "--[=[c]]=]", "--[==[c]=]==]", "--[=[c]==]=]", "--[[c]=]]",
                 "--[[c\r\nc]]", "--[=[\n]]=]"}
+\* ---- the complete numeral alphabet (second seeded round): every path through the reference's read_numeral /
+\* l_str2d: decimal integer / fraction on either side of the `.` / exponent e|E with and without sign, with and
+\* without a `.` before it; hexadecimal integer (x|X, digits of both cases); and for 5.2+ / LuaJIT hexadecimal
+\* floats: binary exponent p|P directly after the integer digits (NO `.`: the manual's own `0xA23p-4`), after a
+\* `.` with digits on either / both sides, a mantissa whose last hex digit is `e` (not a decimal exponent).
+LexNumDec == {"0", "007", "1e5", "1E5", "1e+5", "1E-5", "3.e2", "3.E+2", ".5e-3", ".5E3", "3.25e+10", "0.0",
+              "0xff", "0XFF", "0xaBc09", "0xe", "0x0"}
+LexNumHexFloat == {"0xA23p-4", "0x1p4", "0x1P4", "0xfP+2", "0Xfp2", "0xep1", "0xep-1", "0xA.p1", "0xA.P-1", "0x.1",
+                   "0x.ep+1", "0xA.8p0", "0x1.8P+3", "0xA."}
+LexNumerals == LexNumDec \cup (IF Ge52 \/ JIT THEN LexNumHexFloat ELSE {})
 LexNT == {"LexLit", "LexCmt"}
 
 Seqs(S) == {<<x>> : x \in S}
@@ -161,7 +171,7 @@ Prods(nt) ==
     [] nt = "RichBin" -> Seqs(Binops)
     [] nt = "RichUn" -> Seqs(Unops)
     [] nt = "RichCmt" -> Seqs(Comments)
-    [] nt = "LexLit" -> Seqs(LexStrings)
+    [] nt = "LexLit" -> Seqs(LexStrings \cup LexNumerals)
     [] nt = "LexCmt" -> Seqs(LexComments)
     [] OTHER -> {}
 
@@ -225,7 +235,7 @@ Spec == Init /\ [][Next]_vars
 \* character after an unknown escape and reads numerals with the C library, so 5.2/5.3 escapes and hex floats
 \* load).  The driver replaces such lexemes by the plain representative before consulting derivability.
 NegVersions == {"Lua51", "Lua52", "Lua53", "Lua54", "Lua55"}
-SoftLex(v) == IF v = "Lua51" THEN {"0x.8p1", "0xA.8", "\"\\x41\\z  \"", "\"\\u{48}\""} \cup Esc52 \cup Esc53 ELSE {}
+SoftLex(v) == IF v = "Lua51" THEN {"0x.8p1", "0xA.8", "\"\\x41\\z  \"", "\"\\u{48}\""} \cup Esc52 \cup Esc53 \cup LexNumHexFloat ELSE {}
 Table == [neg |-> NegVersions \cap Versions, soft |-> [v \in Versions |-> SoftLex(v)],
           plain_num |-> "1", plain_str |-> "\"s\""]
 
